@@ -31,8 +31,10 @@ def sql_cases(tier, seed):
                 ops.append("len")
             elif r < 0.84:
                 ops.append("setmax %d" % rng.choice([0, 1, 2, 3, 5, 100]))
-            elif r < 0.92:
+            elif r < 0.90:
                 ops.append("reopen")
+            elif r < 0.93:
+                ops.append(rng.choice(["save", "save", "append"]))     # to the database's own path: nothing may change
             else:
                 ops.append("%s %s %d %s" % (rng.choice(["search", "sw"]), enc([ord(c) for c in rng.choice(TERMS)]),
                                             rng.randint(0, count + 1), rng.choice("fr")))
@@ -41,6 +43,26 @@ def sql_cases(tier, seed):
             ops.append("reopen")
         ops.append("len")
         ops += ["walk"]
+        cases.append((head, ops))
+    # row ids that are not 1..n (old rows trimmed, or replaced duplicates), then a save to the database's own path, then
+    # searches and a walk: nothing a save does may disturb what is found or walked (both duplicate policies)
+    for _ in range(n // 8):
+        head = "%d %d %d" % (rng.choice([100, 100, 5]), rng.random() < 0.3, rng.random() < 0.5)
+        words = rng.sample(["git status", "git push", "ls", "src main", "status", "grep src", "a", "b git"], rng.randint(4, 7))
+        ops = ["add " + enc([ord(c) for c in w]) for w in words]
+        ops.insert(rng.randint(2, len(ops)), "setmax %d" % rng.choice([1, 2, 3]))
+        ops.append("setmax 100")
+        if rng.random() < 0.5:
+            ops.append("add " + enc([ord(c) for c in rng.choice(words)]))
+        ops.append("save")
+        if rng.random() < 0.5:
+            ops.append("add " + enc([ord(c) for c in rng.choice(["git log", "zz"])]))
+        if rng.random() < 0.3:
+            ops.append("reopen")
+        for _ in range(rng.randint(2, 5)):
+            ops.append("%s %s %d %s" % (rng.choice(["search", "sw"]), enc([ord(c) for c in rng.choice(["git", "status", "src", "g", "a", "ls"])]),
+                                        rng.randint(0, 8), rng.choice("fr")))
+        ops += ["len", "walk"]
         cases.append((head, ops))
     return cases
 
